@@ -175,3 +175,26 @@ def run(ctx: Ctx, replay: str | None) -> None:
     ctx.sample({"calls": static["calls"]})
     eps = pmap(record_episode, [(ctx.seed, i) for i in range(150 if quick else 1500)])
     validate_episodes(ctx, eps)
+
+    # extension (DESIGN.md 11): whole training loops  forward ; (mtl_)backward ; SGD step ; zero_grad
+    from ..trainloop import replay_trajectory
+    tl = run_tlc("TrainLoop", "MC_TrainLoop_quick.cfg" if quick else "MC_TrainLoop_thorough.cfg", workers="auto",
+                 seed=ctx.seed, timeout=3000)
+    ctx.add_tlc(tl)
+    if tl.violated:
+        raise MachineryError(f"TrainLoop.tla violates {tl.violated}\n{tl.cex[:1500]}")
+    prog = tl.prints["STATIC"][0]["prog"]
+    trajs = [t["trace"] for t in tl.prints.get("TRAJ", [])]
+    results = pmap(replay_trajectory, [(prog, t, ctx.seed, i) for i, t in enumerate(trajs)])
+    for t, msgs in zip(trajs, results):
+        ctx.evaluations += len(t)
+        ctx.traces += 1
+        key = "trainloop:" + json.dumps([[s["mode"], s["zero"]] for s in t])
+        if len(t) >= 2:
+            ctx.nontrivial(key)
+        for m in msgs:
+            ctx.violation(key, f"training loop {[(s['mode'], s['zero']) for s in t]} with SGD(lr=1): {m}",
+                          {"kind": "trainloop", "trace": t})
+    ctx.extra["trainloop_trajectories"] = len(trajs)
+    if trajs:
+        ctx.sample({"trainloop": [(s["mode"], s["zero"], s["params"]) for s in trajs[-1]]})
